@@ -56,5 +56,8 @@ def run():
         raise AssertionError("double write not flagged")
     except pddl.Conflict:
         pass
+    _, fl3 = pddl.successor(["and", ["increase", ["g"], "1"], ["when", ["r"], ["and", ["decrease", ["g"], "3"]]],
+                             ["forall", ["?z", "-", "s"], ["when", ["and"], ["increase", ["g"], ["f", "?z"]]]]], env, st, w)
+    assert fl3[("g",)] == F(2) + 1 - 3 + F(3, 2) + 0, fl3
     f2, _ = pddl.successor(["and", ["forall", ["?z", "-", "t"], ["when", ["p", "?z"], ["not", ["p", "?z"]]]]], env, st, w)
     assert ("p", "a") not in f2
